@@ -39,12 +39,13 @@ THEOREMS = "Props/C04.v"
 EXTS = []
 RULE = ("random topologies (1-3 chains with explicit/absent/empty/2-char chain ids, 0-3 residues per chain with "
         "repeated resSeq incl. 0 and negative, default resSeq, long names, segment ids, 0-4 atoms per residue with "
-        "duplicate names, virtual sites, absent/non-contiguous/duplicate/large serials, occasionally built out of "
-        "chain order; residue names from the PDB writer's standard list (ALA, GLY, HOH, DA, CYS, with atom names the "
-        "reader's tables do not know) next to hetero names; typed/ordered/duplicate bonds across residues and chains; in a quarter of the cases a second "
+        "duplicate names, elements H/D (shared atomic number)/C/N/O/S/P/halogens/metals/two-letter symbols/virtual sites "
+        "(compared by identity with the module singleton, name, atomic number and mass), absent/non-contiguous/duplicate/large serials, occasionally built out of "
+        "chain order; residue names from the PDB writer's standard list next to hetero names, in 12% of the cases "
+        "standard residues with the atom names of residues.xml (so that the reader regenerates standard bonds); typed/ordered/duplicate bonds across residues and chains; in a quarter of the cases a second "
         "independent topology, in another quarter a twin differing in at most one attribute or in bond insertion order) "
         "followed by 1-7 ops from "
-        "{copy, copy.copy, deepcopy, Trajectory slice, pickle, subset(list/array/atom_slice), join/stack(keep_resSeq), "
+        "{copy, copy.copy, deepcopy, Trajectory slice, pickle (protocol 2, highest, pickled Trajectory), subset(list/array/atom_slice), join/stack(keep_resSeq), "
         "to/from_dataframe, save+load .h5, save+load .pdb(ter), add_chain/add_residue/add_atom/add_bond/insert_atom/"
         "delete_atom_by_index on any topology}; observed: chain-wise dump with back pointers, _atoms/_residues list "
         "order, counters, bonds with identity facts, == and hash-equality matrices; a case is non-trivial when it "
@@ -55,8 +56,11 @@ TRUSTED = ["harness/impl/topo_impl.py (concretises abstract ops against the live
            "harness/impl/topo_driver.ml); every run cross-checks it against vm_compute inside coqc on the probe cases",
            "pandas, PyTables/HDF5, json, pickle are exercised, not modelled: the model describes what mdtraj puts in / takes out"]
 ASSUMPTIONS = ["hash() is modelled by the tuples that are hashed, xor-combined; distinct tuples are taken to have distinct hashes",
-               "PDB runs use residue names outside mdtraj's replacement tables, existing element symbols, names without blanks, "
-               "|resSeq| < 9999 or = 10005, no empty residues (the reader's heuristics for other inputs are not modelled)",
+               "PDB runs of the model stream: the model covers the writer (incl. the standardResidues CONECT filter) and the reader "
+               "incl. create_standard_bonds with the table regenerated from residues.xml (coq/Gen/TopoStdBonds.v); NOT modelled are "
+               "the reader's renaming tables pdbNames.xml (runs use canonical residue names and atom names that the tables leave "
+               "unchanged), distance-based disulfide detection (atoms are written 1 nm apart), element guessing (existing symbols), "
+               "hybrid-36/hex numbering (|resSeq| < 9999 or = 10005, serials < 10^5 after the modulo), empty residues",
                "an op that raises is assumed to leave existing objects unchanged (the generated guards keep raising ops to "
                "delete out of range and join(keep_resSeq=False) onto an empty topology, plus KeyErrors caused by aliasing)"]
 
@@ -82,12 +86,39 @@ RES_NAMES = ["LIG", "XXA", "UNK", "MOL", "LONGN", "AB", "LIG", "ALA", "GLY", "HO
 STD_NAMES = {"ALA", "GLY", "HOH", "DA", "CYS"}        # names in the PDB writer's standardResidues list
 SAFE_ATOM_NAMES = ["C1", "C2", "M", "S1", "X9", "C1"]   # names the PDB reader's tables do not know
 ATOM_NAMES = ["C1", "C2", "N", "O", "H", "H", "CA", "HX12L", "M", "S1"]
-ELEMS = ["C", "N", "O", "H", "S", "VS", "VS0", "Cl"]
+# H and D share an atomic number; VS is the virtual-site singleton (VS0: passed as element=None); two-letter symbols,
+# metals, halogens
+ELEMS = ["C", "N", "O", "H", "D", "S", "P", "VS", "VS0", "Cl", "Br", "F", "I", "Zn", "Fe", "Na", "Mg", "K", "Ca", "Se", "D", "H"]
 CHAIN_IDS = [None, None, "A", "B", "X", "", "QR", "A"]
 SEGS = ["", "", "S1", "SEGLONG"]
 RESSEQS = [None, 0, 0, 1, 5, 5, 7, -3, 42, 10005]
 TYPES = [None, None, "Single", "Double", "Triple", "Aromatic", "Amide"]
 ORDERS = [None, None, 1, 2, 3]
+
+
+# ---------------------------------------------------------------------------- translator
+def translate(ctx):
+    """coq/Gen/TopoStdBonds.v: the table create_standard_bonds() uses, regenerated from /repo's residues.xml."""
+    import xml.etree.ElementTree as etree
+    from common import REPO
+    tree = etree.parse(os.path.join(REPO, "mdtraj/formats/pdb/data/residues.xml"))
+    out = ["(* GENERATED by harness/props/C04.py:translate from mdtraj/formats/pdb/data/residues.xml - do not edit.",
+           "   The bonds Topology.create_standard_bonds() adds per residue name: (from, to) atom names; a leading",
+           "   '-' refers to the previous residue of the chain. *)",
+           "From Coq Require Import String List.", "Import ListNotations.", "Open Scope string_scope.", "",
+           "Definition std_bonds : list (string * list (string * string)) := ["]
+    rows = []
+    for res in tree.getroot().findall("Residue"):
+        bonds = []
+        for b in res.findall("Bond"):
+            f, t = b.attrib["from"], b.attrib["to"]
+            if f.startswith("+") or t.startswith("+") or '"' in f + t:
+                raise ValueError("residues.xml: unsupported bond %r" % ((f, t),))
+            bonds.append('("%s", "%s")' % (f, t))
+        rows.append('  ("%s", [%s])' % (res.attrib["name"], "; ".join(bonds)))
+    out.append(";\n".join(rows))
+    out.append("].")
+    ctx.write_gen("Gen/TopoStdBonds.v", "\n".join(out) + "\n")
 
 
 # ---------------------------------------------------------------------------- generators
@@ -141,7 +172,9 @@ def gen_tail(rng, n):
             ops.append(["join", f(), f(), rng.random() < 0.5, rng.choice(["join", "stack"])])
         elif k == "pdb":
             ops.append(["pdb", f(), rng.random() < 0.8])
-        elif k in ("pickle", "df", "h5"):
+        elif k == "pickle":
+            ops.append(["pickle", f(), rng.choice(["p2", "phigh", "traj"])])
+        elif k in ("df", "h5"):
             ops.append([k, f()])
         else:
             e = rng.choice(["insert_atom", "insert_atom", "delete", "delete", "add_bond", "add_atom", "add_residue",
@@ -194,7 +227,50 @@ def gen_twin(rng, base):
     return twin
 
 
-def gen_case(rng):
+def gen_std_base(rng, tables):
+    """Standard residues with the atom names of mdtraj's residues.xml next to hetero residues, explicit bonds of
+    every kind (some of the standard ones, disulfide, standard-hetero, hetero-hetero, a non-standard
+    standard-standard one); meant for the .pdb round trip, where the reader regenerates the standard bonds."""
+    std_atoms = tables["std_atoms"]
+    ops = [["new"]]
+    atoms = []      # (res index, res name, atom name)
+    nres = 0
+    resseq = rng.choice([1, 20])
+    for ci in range(rng.choice([1, 2, 2, 3])):
+        ops.append(["add_chain", 0, rng.choice([None, "A", "B", "X"])])
+        for _ in range(rng.choice([1, 2, 3])):
+            if rng.random() < 0.65:
+                name = rng.choice([n for n in PDB_STD if n in std_atoms])
+                names = std_atoms[name][:rng.randint(2, min(8, len(std_atoms[name])))]
+                if name == "CYS" and "SG" not in names:
+                    names = names + ["SG"]
+            else:
+                name = rng.choice(tables["hetero_ok"])
+                pool = HET_ATOMS.get(name, HET_ATOMS["default"])
+                names = pool[:rng.randint(1, len(pool))]
+            ops.append(["add_residue", 0, ci, name, resseq, rng.choice(["", "S1"])])
+            for an in names:
+                sym = "Zn" if an == "ZN" else an[0]
+                ops.append(["add_atom", 0, nres, an, sym, None])
+                atoms.append((nres, name, an))
+            resseq += rng.choice([1, 1, 5])
+            nres += 1
+    n = len(atoms)
+    if n >= 2:
+        for _ in range(rng.choice([1, 2, 3, 4, 6])):
+            i, j = rng.sample(range(n), 2)
+            ops.append(["add_bond", 0, i, j, rng.choice(TYPES), rng.choice(ORDERS)])
+        sg = [i for i, a in enumerate(atoms) if a[1] == "CYS" and a[2] == "SG"]
+        if len(sg) >= 2 and rng.random() < 0.7:
+            i, j = rng.sample(sg, 2)
+            ops.append(["add_bond", 0, i, j, None, None])
+    return ops
+
+
+def gen_case(rng, tables=None):
+    if tables is not None and rng.random() < 0.12:
+        tail = [["pdb", 0.0, rng.random() < 0.7]] + gen_tail(rng, rng.randint(0, 3))
+        return {"ops": gen_std_base(rng, tables), "tail": tail}
     base = gen_base(rng, 0, rng.random() < 0.15)
     r = rng.random()
     if r < 0.25:
@@ -713,7 +789,8 @@ def build_cases(ctx):
     quick = ctx.tier == "quick"
     # the witnesses of the recorded findings are replayed first on every run
     cases = [{"ops": PROBES[n][1], "concrete": True} for n in PROBE_ORDER]
-    cases += [gen_case(rng) for _ in range(500 if quick else 10000)]
+    tables = ctx.run_impl("topo_impl.py", {"pdb_tables": [sorted(set(PDB_STD)), PDB_HET]})["tables"]
+    cases += [gen_case(rng, tables) for _ in range(500 if quick else 10000)]
     # exhaustive small scope: every topology shape with <= 3 (quick) / 4 (thorough) atoms x every subset,
     # then an edit of the source and a copy of the subset
     for n, ops in small_topologies(3 if quick else 4):
